@@ -489,6 +489,19 @@ wait:
 		if n := channelEventsCount() - chanBaseline; n > 0 && !hasChannel {
 			return fmt.Errorf("after %s: a ChannelEvents goroutine whose consumer stopped receiving is still parked (its channel is never closed):\n%s", c.Last, tcellStacks())
 		}
+		// ... and it closed the channel on its way out (events on their way may come first)
+		closedGuard := pbt.After(5 * time.Second)
+		for open, n := true, 0; open; n++ {
+			select {
+			case _, ok := <-stalledCh:
+				open = ok
+				if n > 16 {
+					return fmt.Errorf("after %s: the stalled ChannelEvents channel keeps delivering instead of being closed", c.Last)
+				}
+			case <-closedGuard:
+				return fmt.Errorf("after %s: the ChannelEvents goroutine whose consumer had stopped receiving left without closing its channel", c.Last)
+			}
+		}
 	}
 	if c.Last == "fini" {
 		// PollEvent returns nil at once (stale queued events may come first)
